@@ -299,6 +299,13 @@ def mh_check(pid, tier, seed, replay, make_jobs, rule, props=None):
     jobs = make_jobs(rng, tier)
     if pid in ("C05", "C10"):
         model_check(chk, [("MhCarry", "MhCarry.cfg", 4, 300)])
+    if pid == "C09":
+        # the transcription of rolling_hash2_run against the closed-form definition: every stream over a toy alphabet, every
+        # initial window, every sequence of max_len values (cut-independence is exactly this quantifier)
+        model_check(chk, [("RhImpl", "RhImpl.cfg", 8, 600)] + ([("RhImpl", "RhImpl_w3.cfg", 12, 1500)] if tier != "quick" else []))
+        rc_m, out_m, _ = verif.tlc("RhImpl", cfg="RhImpl_mut.cfg", workers=4, timeout=300)
+        if "Invariant ImplEqualsDefinition is violated" not in out_m:
+            raise verif.MachineryError("RhImpl_mut must violate ImplEqualsDefinition (model would be vacuous):\n" + out_m[-1500:])
     outs = run_jobs(jobs, exe, "TraceMh")
     nb, ne = collect(chk, outs, props | {"SPEC"}, marker="Mark")
     _finish_traces(chk, jobs, outs, nb, ne, rule)
@@ -401,13 +408,31 @@ def check_c15(tier, seed, replay=None, selftest=False):
             plan = [(f, x) for f in fams + ["isal", "legacy"] for x in (29, 32)] + [(fams[(seed + ai) % len(fams)], 33), ("isal", 33)]
         for fam, crossing in plan:
             jobs.append(hash_job("c15-%s-%s-%d" % (alg, fam, crossing), [c15_behaviour(rng, alg, fam, crossing)]))
+    # one lane holding a single segment of >= 2^31 bytes while the manager is full and turns over short jobs: every lane position
+    # of the long job x the shortest job at lane distance +-{1, L/4, L/2} (the partners of the minimum-search reduction)
+    for alg in gen_hash.FAMS:
+        for fam in gen_hash.FAMS[alg]:
+            L = gen_hash.lanes(alg, fam)
+            if fam in ("base", "sb_sse4") or L < 2:
+                continue
+            pairs = sorted({(a, (a + sgn * d) % L) for a in range(L) for d in {1, max(1, L // 4), L // 2} for sgn in (1, -1)} - {(a, a) for a in range(L)})
+            bs = [gen_hash.longlane_behaviour(rng, alg, fam, a, b) for a, b in pairs]
+            if tier != "quick":
+                bs += [gen_hash.longlane_behaviour(rng, alg, fam, a, b, drain=True) for a, b in rng.sample(pairs, 2)]
+            jobs.append(hash_job("c15-longlane-%s-%s" % (alg, fam), bs))
+    for alg in gen_hash.FAMS:
+        a = rng.randrange(gen_hash.DISP_LANES[alg])
+        jobs.append(hash_job("c15-longlane-%s-isal" % alg, [gen_hash.longlane_behaviour(rng, alg, "isal", a, (a + d) % gen_hash.DISP_LANES[alg])
+                                                              for d in (1, gen_hash.DISP_LANES[alg] // 4, gen_hash.DISP_LANES[alg] // 2)]))
     outs = run_jobs(jobs, exe, "TraceHash")
     nb, ne = collect(chk, outs, props)
     _finish_traces(chk, jobs, outs, nb, ne,
                    "one behaviour = one stream whose running total crosses 2^29, 2^32 (incl. a single 2^32-1 byte submit) or 2^32+2^29 at "
                    "residues {0,1,B-P-1,B-P,B-1}; the caller's buffer is a 4 GiB virtual window repeating a 1 MiB pattern; TLC checks the "
                    "reported total_length (pair arithmetic) and the digest (streaming primitive over the same segments); both crossings run "
-                   "on all 28 families + the dispatched entry in both tiers; thorough adds the legacy entry points and 2^32+2^29")
+                   "on all 28 families + the dispatched entry in both tiers; thorough adds the legacy entry points and 2^32+2^29. "
+                   "Long-lane behaviours: a full manager in which one lane holds one segment of >= 2^31 bytes (every lane position x "
+                   "shortest job at the reduction-partner distances) keeps turning over short jobs; thorough also drains some")
     chk.cov["distinct_nontrivial"] = len(jobs)
     chk.assumptions += ["digest of >2^29-byte streams computed by Prim!DigestOfSegs (JDK MessageDigest / own SM3), cross-checked against the "
                         "TLA+ definition HashStd!Digest on short streams at setup", "periodic pattern data (period 2^20)"]
